@@ -580,12 +580,19 @@ def run_case(case, ctx):
     if (len(pts) + int(tms[-1] // 1000)) % 4 == 1:
         # the track to resample is itself a derived object (copy, full extract, concatenation of two parts ...)
         track, _how = gen.derive(track, (tms, mode))
+    zone_ = [0, 0, 2, 0, -5, 0, 0, 1][(len(pts) * 3 + int(tms[0] // 1000)) % 8]
+    if zone_:
+        # the timestamps carry a time-zone LABEL (Track.setTimeZone): the instants requested and the instants
+        # returned are the same calendar fields whatever the label
+        track.setTimeZone(zone_)
     src = _read(track)
     if M.is_raised(src):
         raise M.HarnessError("cannot re-read the generated track: %s" % src.brief())
     if src[3] != list(tms):
         raise M.HarnessError("generated timestamps are not what the API returns")
     cls = _classes(case, pts, tms)
+    if zone_:
+        cls.add("timestamps_carrying_a_time_zone_label")
     if pre:
         cls.add("pre:" + pre)
     sig = (tuple(tms), tuple(tuple(p) for p in pts), mode, repr(arg), case.get("entry"), pre)
